@@ -106,6 +106,26 @@ func VerifC_write(desc []byte, blockSize uint32, restartInterval int, flags int,
 	return b, n
 }
 
+// VerifC_stack_scan opens the stack directory with the C stack and returns the
+// canonical dump of its merged view: the refs from seek_ref(arg) (mode 0) or
+// the logs from seek_log_at(arg, idx) (mode 1).  flags as VerifC_write.
+func VerifC_stack_scan(dir string, flags int, mode int, arg []byte, idx uint64, outcap int) ([]byte, int) {
+	f := verifCDriver("stackscan", dir, strconv.Itoa(flags), strconv.Itoa(mode), verifHex(arg), strconv.FormatUint(idx, 10), strconv.Itoa(outcap))
+	n, _ := strconv.Atoi(f[0])
+	b, _ := hex.DecodeString(strings.TrimPrefix(f[1], "x"))
+	return b, n
+}
+
+// VerifC_stack_op opens the stack directory with the C stack, runs one
+// operation (0 add the records of desc at the next update index, 1 the same
+// with automatic compaction, 2 compact_all, 3 auto_compact, 4 clean) and
+// closes the stack; it returns the operation's result code.
+func VerifC_stack_op(dir string, flags int, blockSize uint32, op int, desc []byte) int {
+	f := verifCDriver("stackop", dir, strconv.Itoa(flags), strconv.FormatUint(uint64(blockSize), 10), strconv.Itoa(op), verifHex(desc))
+	n, _ := strconv.Atoi(f[0])
+	return n
+}
+
 var _ = fmt.Sprint
 
 // Harness_C15_varint: Go and C varint encoders produce the same bytes, and each decodes the other's output.
